@@ -60,6 +60,7 @@ type streamState struct {
 	openInv  int // commits completed when Watch was invoked
 	openRet  int // commits completed when Watch returned
 	startTok bson.Raw
+	startEv  bson.D // the delivered event whose token startTok is
 	events   []bson.D
 	tokens   []bson.Raw
 	ended    string // "", closed, invalidated, lost, error:<..>
@@ -158,6 +159,9 @@ func opStr(op *Op) string {
 	}
 	if op.U != nil {
 		s += " u=" + docStr(op.U.D)
+	}
+	for _, f := range op.AF {
+		s += " af=" + docStr(f.D)
 	}
 	if op.D != nil {
 		s += " d=" + docStr(op.D.D)
@@ -297,6 +301,9 @@ func (a *actor) exec(op *Op) *CallRec {
 	case "s.op":
 		// a driver call carrying the shared session (joins its transaction if one is open)
 		return a.call(op, func(c *CallRec) {
+			if len(op.Sub) == 0 || len(e.sharedSess) == 0 {
+				return
+			}
 			sess := e.sharedSess[op.Sess%len(e.sharedSess)]
 			sub := &op.Sub[0]
 			c.Err = lungo.WithSession(context.Background(), sess, func(sc lungo.ISessionContext) error {
@@ -523,6 +530,7 @@ func (a *actor) watch(op *Op) *CallRec {
 			for i := len(a.streams) - 1; i >= 0 && tok == nil; i-- {
 				if n := len(a.streams[i].tokens); n > 0 {
 					tok = a.streams[i].tokens[n-1]
+					st.startEv = a.streams[i].events[n-1]
 				}
 			}
 			if tok == nil {
